@@ -473,8 +473,12 @@ func TestC19Constructive(t *testing.T) {
 		}
 		evid.Case(fam+":"+string(b), nt, classes...)
 		if evid.WantSample(nt) {
-			evid.Sample(map[string]any{"family": fam, "ip_layer": hex.EncodeToString(b), "proto": p.Proto, "sport": p.Sport, "dport": p.Dport,
-				"captured": p.CapLen, "frag_offset": p.FragOff, "expected": wantOut.String(), "expected_key": wantKey.String()}, nt)
+			smp := map[string]any{"family": fam, "ip_layer": hex.EncodeToString(b), "proto": p.Proto, "sport": p.Sport, "dport": p.Dport,
+				"captured": p.CapLen, "frag_offset": p.FragOff, "expected": wantOut.String()}
+			if wantOut == outOK {
+				smp["expected_key"] = wantKey.String()
+			}
+			evid.Sample(smp, nt)
 		}
 
 		o := check(t, "packet", p.V6, b, wantOut, wantKey, wantAux)
